@@ -611,13 +611,18 @@ package parser
 //@   ensures [C08:spec] result == u16(s, len(s))
 //@   ensures [nonneg] result >= 0
 //@   loop 1 invariant 0 <= iterpos && iterpos <= len(s) && bnd(s, iterpos) && n == u16(s, iterpos) && n >= 0
+//@ pred OneSide(text, bp, t, j) := t.Range.End.Offset - bp.Offset - 1 < splitoff(text, ",", j) || splitoff(text, ",", j) <= t.Range.Start.Offset - bp.Offset - 1
 //@ func parseTags
 //@   props C08 C06 C20
 //@   ensures [C08:tag_position] forall k int :: {result[k]} 0 <= k && k < len(result) ==> TagAt(text, basePos, result[k])
 //@   ensures [C08:tags_in_order] forall k int :: {result[k]} 0 < k && k < len(result) ==> result[k - 1].Range.End.Offset <= result[k].Range.Start.Offset
-//@   loop 1 invariant 0 - 1 <= rangeindex && 0 <= searchStart && searchStart <= len(text) && (fresh(tags) || len(tags) == 0)
-//@   loop 1 invariant forall k int :: {tags[k]} 0 <= k && k < len(tags) ==> TagAt(text, basePos, tags[k]) && tags[k].Range.End.Offset <= basePos.Offset + 1 + searchStart
+//@   ensures [C08:tag_inside_one_part] forall k int, j int :: {result[k]; splitoff(text, ",", j)} 0 <= k && k < len(result) && 1 <= j && j < splitcnt(text, ",") ==> OneSide(text, basePos, result[k], j)
+//@   ensures [C08:tag_name_then_colon] forall k int :: {result[k]} 0 <= k && k < len(result) ==> len(result[k].Name) > 0 && text[result[k].Range.Start.Offset - basePos.Offset - 1 + len(result[k].Name)] == ':'
+//@   loop 1 invariant 0 - 1 <= rangeindex && partStart == splitoff(text, ",", rangeindex + 1) && (fresh(tags) || len(tags) == 0)
+//@   loop 1 invariant forall k int :: {tags[k]} 0 <= k && k < len(tags) ==> TagAt(text, basePos, tags[k]) && tags[k].Range.End.Offset <= basePos.Offset + partStart
 //@   loop 1 invariant forall k int :: {tags[k]} 0 < k && k < len(tags) ==> tags[k - 1].Range.End.Offset <= tags[k].Range.Start.Offset
+//@   loop 1 invariant forall k int, j int :: {tags[k]; splitoff(text, ",", j)} 0 <= k && k < len(tags) && 1 <= j && j < splitcnt(text, ",") ==> OneSide(text, basePos, tags[k], j)
+//@   loop 1 invariant forall k int :: {tags[k]} 0 <= k && k < len(tags) ==> len(tags[k].Name) > 0 && text[tags[k].Range.Start.Offset - basePos.Offset - 1 + len(tags[k].Name)] == ':'
 //@   loop 1 exhaustive
 //@   loop 1 decreases len(parts) - rangeindex
 //@ trusted normalizeNumber
